@@ -7,6 +7,7 @@ import (
 	"encoding/json"
 	"fmt"
 	"math/rand/v2"
+	"runtime"
 	"sort"
 	"strings"
 	"testing"
@@ -282,6 +283,8 @@ type env struct {
 	s   *zs.Sim
 	out *RunOut
 
+	cleanup []func() // stop hooks of every cache created (run inside the bubble, always)
+
 	setup  bool // jitter source returns 0.5 (no change) while the harness prepares state
 	jitter *rand.Rand
 }
@@ -327,9 +330,20 @@ func execute(t *testing.T, sc *Scenario, trace bool) (out *RunOut) {
 func runInBubble(sc *Scenario, out *RunOut, trace bool) {
 	var s *zs.Sim
 
+	e := &env{sc: sc, out: out, jitter: newRng(sc.JitterSeed, 13)}
+
 	defer func() {
 		if r := recover(); r != nil {
-			out.Internal = fmt.Sprintf("harness panic: %v", r)
+			buf := make([]byte, 2048)
+			buf = buf[:runtime.Stack(buf, false)]
+			out.Internal = fmt.Sprintf("harness panic: %v\n%s", r, buf)
+		}
+
+		for _, f := range e.cleanup {
+			func() {
+				defer func() { _ = recover() }()
+				f()
+			}()
 		}
 
 		if s != nil {
@@ -342,8 +356,6 @@ func runInBubble(sc *Scenario, out *RunOut, trace bool) {
 	}()
 
 	mapRng := newRng(sc.MapSeed, 11)
-	e := &env{sc: sc, out: out, jitter: newRng(sc.JitterSeed, 13)}
-
 	cfg := zs.Config{
 		Wait:       synctest.Wait,
 		Chooser:    makeChooser(sc.Sched),
